@@ -41,6 +41,7 @@ fn alphabet_for(prop: &str) -> Vec<Op> {
         "C05" => vec![
             Op::Put(0),
             Op::Del(0),
+            Op::PutHuge(1),
             Op::PutBig(0),
             Op::PutBig(1),
             Op::PutBig(2),
@@ -130,6 +131,84 @@ fn seeds(prop: &str) -> Vec<(&'static str, Vec<Op>)> {
             Op::Reopen,
         ],
     ));
+    // a tombstone that shadows nothing, at the oldest level, next to a live key
+    v.push((
+        "l15-dangling-tombstone",
+        vec![Op::Del(0), Op::Put(1), Op::Put(2), Op::Flush, Op::CompactAll],
+    ));
+    // two files at the oldest level that share a boundary key (built by reopening: every
+    // reopen turns the log into one SST)
+    v.push((
+        "reopen-built-boundary-sharing",
+        vec![Op::Put(1), Op::Put(2), Op::Reopen, Op::Put(0), Op::Put(1), Op::Reopen],
+    ));
+    if prop == "C05" || prop == "C08" || prop == "C04" {
+        // every entry in a file of its own: an old single-key file at the oldest level, and a
+        // newer file around it in level 0 (the next compaction re-creates the old file)
+        v.push((
+            "huge-l15-inside-l0",
+            vec![
+                Op::PutHuge(1),
+                Op::Flush,
+                Op::CompactAll,
+                Op::PutHuge(0),
+                Op::PutHuge(2),
+                Op::Flush,
+            ],
+        ));
+        // three stacked levels, one flushed file pending: the next compactions move it down and
+        // then merge the file around [ab] with [ab] itself, which re-creates [ab] byte for byte
+        // (an output with the setsum of an input)
+        v.push((
+            "huge-three-stacked",
+            vec![
+                Op::PutHuge(1),
+                Op::Flush,
+                Op::CompactAll,
+                Op::PutHuge(0),
+                Op::PutHuge(2),
+                Op::Flush,
+                Op::CompactAll,
+                Op::PutHuge(0),
+                Op::Flush,
+            ],
+        ));
+    }
+    if prop == "C05" || prop == "C01" || prop == "C03" || prop == "C04" || prop == "C08" {
+        // two stacked files at the two oldest levels of similar size, the older one holding a
+        // tombstone that shadows nothing: one more flushed file makes the top-level GC selectable
+        v.push((
+            "l14-over-l15-dangling-tombstone",
+            vec![
+                Op::Del(0),
+                Op::Put(1),
+                Op::Put(2),
+                Op::Flush,
+                Op::CompactAll,
+                Op::Put(0),
+                Op::Put(1),
+                Op::Put(2),
+                Op::Flush,
+                Op::CompactAll,
+            ],
+        ));
+        // the same with a tombstone over a value across the two levels
+        v.push((
+            "l14-tombstones-over-l15-values",
+            vec![
+                Op::Put(0),
+                Op::Put(1),
+                Op::Put(2),
+                Op::Flush,
+                Op::CompactAll,
+                Op::Del(0),
+                Op::Put(1),
+                Op::Del(2),
+                Op::Flush,
+                Op::CompactAll,
+            ],
+        ));
+    }
     if prop == "C05" {
         v.push((
             "big-values-two-levels",
@@ -148,6 +227,10 @@ fn seeds(prop: &str) -> Vec<(&'static str, Vec<Op>)> {
     }
     v
 }
+
+static GC_STEPS: std::sync::atomic::AtomicU64 = std::sync::atomic::AtomicU64::new(0);
+static GC_STEPS_DROPPING: std::sync::atomic::AtomicU64 = std::sync::atomic::AtomicU64::new(0);
+static COMPACTION_STEPS_CHECKED: std::sync::atomic::AtomicU64 = std::sync::atomic::AtomicU64::new(0);
 
 struct RunOutcome {
     /// result of the last step
@@ -193,6 +276,15 @@ fn run(
             before = Some((st.dump_tree(), st.level15_setsums()));
         }
         let r = st.apply(op);
+        if std::env::var("VERIF_TRACE").is_ok() {
+            let what = match &r {
+                StepResult::Ok => "ok".to_string(),
+                StepResult::Noop => "no-op".to_string(),
+                StepResult::Disabled => "disabled".to_string(),
+                StepResult::Err(e) => format!("ERR {e}"),
+            };
+            println!("  step {i} {}: {what}; tree: {}", op.name(), st.describe_tree());
+        }
         match &r {
             StepResult::Err(e) => {
                 if i < seed.len() || !is_last {
@@ -237,6 +329,16 @@ fn run(
                     match st.dump_tree() {
                         Ok(a) => {
                             let l15a = st.level15_setsums();
+                            if dedupe {
+                                use std::sync::atomic::Ordering::Relaxed;
+                                COMPACTION_STEPS_CHECKED.fetch_add(1, Relaxed);
+                                if l15a != l15b {
+                                    GC_STEPS.fetch_add(1, Relaxed);
+                                    if a != b {
+                                        GC_STEPS_DROPPING.fetch_add(1, Relaxed);
+                                    }
+                                }
+                            }
                             let policy = cfg.get("gc-policy").unwrap_or("versions = 1");
                             findings.extend(storecheck::check_compaction_step(
                                 &b,
@@ -481,9 +583,13 @@ fn main() {
     let prop = args.get("prop").expect("--prop").to_string();
     let thorough = args.tier_thorough();
     let depth = args.usize("depth", if thorough { 5 } else { 4 });
+    let alphabet = match args.get("alphabet") {
+        Some(a) => a.split(',').map(Op::parse).collect(),
+        None => alphabet_for(&prop),
+    };
     let plan = Plan {
         prop: prop.clone(),
-        alphabet: alphabet_for(&prop),
+        alphabet,
         depth,
         scan_len_full: args.usize("scan-len-full", if thorough { 4 } else { 3 }),
         scan_len_rest: args.usize("scan-len-rest", if thorough { 3 } else { 2 }),
@@ -504,6 +610,21 @@ fn main() {
                 .clone()
         })
         .collect();
+    // --salts N: run every configuration with N different value salts
+    let salts = args.usize("salts", 1);
+    let cfgs: Vec<Cfg> = cfgs
+        .into_iter()
+        .flat_map(|c| {
+            (0..salts).map(move |s| {
+                let mut c2 = c.clone();
+                if s > 0 {
+                    c2.name = format!("{}+salt{s}", c2.name);
+                    c2.args.push(("verif-salt".to_string(), s.to_string()));
+                }
+                c2
+            })
+        })
+        .collect();
     let seed_depth = args.usize("seed-depth", depth.saturating_sub(1));
     let only_seed = args.get("only-seed");
     // work items: (cfg, seed, first op) -- the first level of the tree is the partition
@@ -516,12 +637,22 @@ fn main() {
                 }
             }
             for op in plan.alphabet.iter() {
+                // the one-op history itself ...
                 items.push(Item {
                     cfg: cfg.clone(),
                     seed_name: name,
                     seed: seed.clone(),
                     prefix: vec![op.clone()],
                 });
+                // ... and one work item per two-op prefix (the partition of the tree)
+                for op2 in plan.alphabet.iter() {
+                    items.push(Item {
+                        cfg: cfg.clone(),
+                        seed_name: name,
+                        seed: seed.clone(),
+                        prefix: vec![op.clone(), op2.clone()],
+                    });
+                }
             }
             // the seed state itself (depth 0)
             items.push(Item {
@@ -549,9 +680,19 @@ fn main() {
             p.depth = seed_depth;
         }
         let mut ops = item.prefix.clone();
-        if ops.is_empty() {
-            // depth-0 item: evaluate only the seed state itself
-            p.depth = 0;
+        if ops.len() < 2 {
+            // depth-0 / depth-1 item: evaluate only that history itself; its subtree belongs to
+            // the two-op items
+            p.depth = p.depth.min(ops.len());
+        } else {
+            if p.depth < 2 {
+                return;
+            }
+            // a two-op prefix whose first op is a no-op / disabled / failing is not a history
+            let first = run(&p, &item.cfg, &item.seed, &ops[..1], &scratch, &mut scan_stats, false);
+            if !matches!(first.last, StepResult::Ok) {
+                return;
+            }
         }
         explore(&p, item, &mut ops, &scratch, rep, &mut scan_stats);
         rep.count("cursor_programs", scan_stats.programs);
@@ -561,6 +702,14 @@ fn main() {
         rep.outcomes.extend(scan_stats.outcomes);
     });
     let mut total = total;
+    {
+        use std::sync::atomic::Ordering::Relaxed;
+        if prop == "C05" {
+            total.count("compaction_steps_checked", COMPACTION_STEPS_CHECKED.load(Relaxed));
+            total.count("steps_that_rewrote_the_oldest_level", GC_STEPS.load(Relaxed));
+            total.count("gc_steps_that_dropped_entries", GC_STEPS_DROPPING.load(Relaxed));
+        }
+    }
     total.bound = json!({
         "depth": depth,
         "seed_depth": seed_depth,
